@@ -36,6 +36,7 @@ type VerifLinked struct {
 	Before map[int]int  `json:"-"`
 	After  map[int]int  `json:"-"`
 	Spaces []VerifSpace `json:"spaces"`
+	Nodes  []ast.Node   `json:"-"` // Nodes[id-1] is the ast node with number id
 }
 
 type VerifDec struct {
@@ -110,6 +111,10 @@ func (f *fileDecorator) verifLinked() {
 	}
 	ids := f.verifNumbering()
 	var out VerifLinked
+	out.Nodes = make([]ast.Node, len(ids))
+	for n, id := range ids {
+		out.Nodes[id-1] = n
+	}
 	for _, fr := range f.fragments {
 		d, ok := fr.(*decorationFragment)
 		if !ok {
